@@ -22,6 +22,11 @@ var (
 	nul = byte('\000')
 )
 
+// maxNestingDepth bounds the recursion of Compact and Indent, like the
+// decoder's limit (and encoding/json's): deeper input is an error, not a
+// stack overflow.
+const maxNestingDepth = 10000
+
 func Compact(buf *bytes.Buffer, src []byte, escape bool) error {
 	if len(src) == 0 {
 		return errors.ErrUnexpectedEndOfJSON("", 0)
@@ -55,7 +60,7 @@ func compactAndWrite(buf *bytes.Buffer, dst []byte, src []byte, escape bool) err
 }
 
 func compact(dst, src []byte, escape bool) ([]byte, error) {
-	buf, cursor, err := compactValue(dst, src, 0, escape)
+	buf, cursor, err := compactValue(dst, src, 0, 0, escape)
 	if err != nil {
 		return nil, err
 	}
@@ -93,18 +98,18 @@ LOOP:
 	return cursor
 }
 
-func compactValue(dst, src []byte, cursor int64, escape bool) ([]byte, int64, error) {
+func compactValue(dst, src []byte, depth int, cursor int64, escape bool) ([]byte, int64, error) {
 	for {
 		switch src[cursor] {
 		case ' ', '\t', '\n', '\r':
 			cursor++
 			continue
 		case '{':
-			return compactObject(dst, src, cursor, escape)
+			return compactObject(dst, src, depth+1, cursor, escape)
 		case '}':
 			return nil, 0, errors.ErrSyntax("unexpected character '}'", cursor)
 		case '[':
-			return compactArray(dst, src, cursor, escape)
+			return compactArray(dst, src, depth+1, cursor, escape)
 		case ']':
 			return nil, 0, errors.ErrSyntax("unexpected character ']'", cursor)
 		case '"':
@@ -123,7 +128,10 @@ func compactValue(dst, src []byte, cursor int64, escape bool) ([]byte, int64, er
 	}
 }
 
-func compactObject(dst, src []byte, cursor int64, escape bool) ([]byte, int64, error) {
+func compactObject(dst, src []byte, depth int, cursor int64, escape bool) ([]byte, int64, error) {
+	if depth > maxNestingDepth {
+		return nil, 0, errors.ErrExceededMaxDepth(src[cursor], cursor)
+	}
 	if src[cursor] == '{' {
 		dst = append(dst, '{')
 	} else {
@@ -146,7 +154,7 @@ func compactObject(dst, src []byte, cursor int64, escape bool) ([]byte, int64, e
 			return nil, 0, errors.ErrExpected("colon after object key", cursor)
 		}
 		dst = append(dst, ':')
-		dst, cursor, err = compactValue(dst, src, cursor+1, escape)
+		dst, cursor, err = compactValue(dst, src, depth, cursor+1, escape)
 		if err != nil {
 			return nil, 0, err
 		}
@@ -165,7 +173,10 @@ func compactObject(dst, src []byte, cursor int64, escape bool) ([]byte, int64, e
 	}
 }
 
-func compactArray(dst, src []byte, cursor int64, escape bool) ([]byte, int64, error) {
+func compactArray(dst, src []byte, depth int, cursor int64, escape bool) ([]byte, int64, error) {
+	if depth > maxNestingDepth {
+		return nil, 0, errors.ErrExceededMaxDepth(src[cursor], cursor)
+	}
 	if src[cursor] == '[' {
 		dst = append(dst, '[')
 	} else {
@@ -178,7 +189,7 @@ func compactArray(dst, src []byte, cursor int64, escape bool) ([]byte, int64, er
 	}
 	var err error
 	for {
-		dst, cursor, err = compactValue(dst, src, cursor, escape)
+		dst, cursor, err = compactValue(dst, src, depth, cursor, escape)
 		if err != nil {
 			return nil, 0, err
 		}
